@@ -35,3 +35,33 @@ def language(m, meta):
         w = spec[:spec.index("+")] + "+L"
         out["witness_with_valid_style"] = {"input": w, "KittyImage": _grammar_level(KittyImage, w), "documented": DOC.fullmatch(w) is not None}
     return out
+
+
+def interpretation(m, meta):
+    """accepted specifiers against the documented meaning, computed independently: alignment as written, padding size given /
+    zero = terminal-relative 0 / absent = terminal width and terminal height - 2, transparency setting"""
+    import itertools
+    import tests
+    from term_image.image import BlockImage
+    from term_image.image.common import _ALPHA_THRESHOLD
+    tw, th = 80, 30      # the stub terminal of the test package
+    bad = []
+    for h, w, v, hh, a in itertools.product(("", "<", "|", ">"), ("", "0", "7", "007"), ("", "^", "-", "_"), ("", "0", "3", "40"), ("", "#", "#.5", "#.0", "#a1B2c3", "##")):
+        if not v and not hh:
+            spec = f"{h}{w}{a}"
+        else:
+            spec = f"{h}{w}.{v}{hh}{a}"
+        try:
+            got = BlockImage._check_format_spec(spec)
+        except Exception as e:
+            bad.append((spec, f"rejected: {type(e).__name__}"))
+            continue
+        wn = int(w) if w else 0
+        exp_w = wn if wn > 0 else max(tw + wn, 1)
+        hn = int(hh) if hh else -2
+        exp_h = hn if hn > 0 else max(th + hn, 1)
+        exp_a = {"": _ALPHA_THRESHOLD, "#": None, "#.5": 0.5, "#.0": 0.0, "#a1B2c3": "#a1B2c3", "##": "#"}[a]
+        exp = (h or None, exp_w, v or None, exp_h, exp_a, {})
+        if tuple(got) != exp:
+            bad.append((spec, tuple(got), exp))
+    return {"reproduced": bool(bad), "input": "all combinations of the documented fields (80x30 terminal)", "observed": bad[:4]}
